@@ -304,6 +304,94 @@ def run_file(res, judge, tracker, fp, name, data, path, rng, tier, full_lines=Tr
                 flags[i % 2], arm=lambda k=k: fp.arm(fail_at=k))
 
 
+FULL_EVENT_FILES = {"empty.sunvox", "amplifier.sunsynth", "dc-blocker.sunsynth", "gen:sampler-with-effect.sunsynth"}
+
+
+def every_event(res, judge, fp, name, data):
+    """Thorough tier: a fault at EVERY line event of the load, for a few small files (incl. one with a nested load)."""
+    import rv.errors as errors
+    fp.arm(record=True)
+    try:
+        judge.orig(BytesIO(data))
+    except Exception:
+        pass
+    finally:
+        fp.disarm()
+    total = fp.count
+    for k in range(total):
+        flag = (True, False)[k % 2]
+        case = {"file": name, "fault": "line-every-event", "point": k, "source": "bytesio", "initial_flag": flag}
+        judge.case = case
+        res.case((name, "every-event", k, flag))
+        res.count("loads")
+        res.count("every_event_faults")
+        errors.RAISE_CONTROLLER_VALUE_ERRORS = flag
+        fp.arm(fail_at=k)
+        try:
+            judge.wrapped(BytesIO(data))
+            res.count("loads_completed")
+        except Exception:
+            res.count("loads_raised")
+        finally:
+            fp.disarm()
+        after = errors.RAISE_CONTROLLER_VALUE_ERRORS
+        errors.RAISE_CONTROLLER_VALUE_ERRORS = True
+        if after is not flag:
+            res.violation("C18:strictness:final:every-event", f"fault at event {k} of {name}: flag {flag!r} -> {after!r}", case)
+
+
+def clone_faults(res, judge, fp, name, data, rng, tier):
+    """clone() (Project / Synth / Module) is a save followed by a load: the same guarantees hold when a fault
+    strikes anywhere inside it.  The load inside clone() goes through the wrapped read_sunvox_file."""
+    import rv.errors as errors
+    try:
+        obj = judge.orig(BytesIO(data))
+    except Exception:
+        return
+    targets = [("container", obj)]
+    mod = getattr(obj, "module", None)
+    if mod is not None:
+        targets.append(("module", mod))
+    for what, target in targets:
+        fp.arm(record=True)
+        try:
+            target.clone()
+        except Exception:
+            pass
+        finally:
+            fp.disarm()
+        total = fp.count
+        if not total:
+            continue
+        firsts = sorted({v[0] for v in (fp.record or {}).values()})
+        n = 40 if tier == "quick" else 300
+        points = set(rng.sample(firsts, min(len(firsts), n))) | {rng.randrange(total) for _ in range(n // 2)}
+        for i, k in enumerate(sorted(points)):
+            flag = (True, False)[i % 2]
+            case = {"file": name, "fault": "line-in-clone", "point": k, "source": what, "initial_flag": flag}
+            judge.case = case
+            res.case((name, "clone", what, k, flag))
+            res.count("loads")
+            res.count("clone_faults")
+            errors.RAISE_CONTROLLER_VALUE_ERRORS = flag
+            fp.arm(fail_at=k)
+            raised = None
+            try:
+                target.clone()
+            except BaseException as e:  # noqa
+                if isinstance(e, (KeyboardInterrupt, SystemExit)):
+                    raise
+                raised = e
+            finally:
+                fp.disarm()
+            after = errors.RAISE_CONTROLLER_VALUE_ERRORS
+            errors.RAISE_CONTROLLER_VALUE_ERRORS = True
+            res.count("loads_raised" if raised is not None else "loads_completed")
+            if after is not flag:
+                res.violation(f"C18:strictness:clone:{'raise' if raised is not None else 'return'}",
+                              f"after {what}.clone() with a fault at event {k} the flag is {after!r}, it was {flag!r}; case {case}", case)
+
+
 def run_shard(spec_, res):
     rng = random.Random(spec_["seed"])
     tier = spec_["tier"]
@@ -333,6 +421,10 @@ def run_shard(spec_, res):
                     with open(path, "wb") as f:
                         f.write(data)
                     run_file(res, judge, tracker, fp, name, data, path, rng, tier, full_lines=name in FULL_LINE_FILES)
+                    if name.startswith("gen:") or name in ("metamodule.sunsynth", "sampler.sunsynth", "single-fm.sunvox") or tier == "thorough":
+                        clone_faults(res, judge, fp, name, data, rng, tier)
+                    if tier == "thorough" and name in FULL_EVENT_FILES:
+                        every_event(res, judge, fp, name, data)
                     res.count("files")
             gc.collect()
             rw = [w for w in wlist if issubclass(w.category, ResourceWarning)]
